@@ -150,6 +150,41 @@ CHECKS = {
          "sqlite driver trusted; names from fixed alphabets; bounded depth (3 quick / 4 thorough) for the cover, length 80/150 for traces",
          "TLA+ spec Refs.tla; TLC transition cover replayed into pkg/ref/sql; TLC trace validation of recorded real executions",
          "DESIGN.md 5/C15"),
+ "C14": ("txn", "fault_enumeration",
+         "Txn.tla unfolds transaction.Commit as the per-branch loop NewCommit(b) / MoveBranch(b) and MarkCommitted, Discard as "
+         "DeleteStagedRef(b)* / DeleteTxRow, with Fail and Crash enabled before EVERY store operation, re-runs and interleaved plain commits; "
+         "TLC checks TerminalOutcomes (all / none / completable by a re-run with exactly one new commit per branch), NeverDuplicates, "
+         "DiscardKeepsHeads and CommittedRefuses over all interleavings; TxnGen enumerates 1..3 staged branches (new / existing) x "
+         "sequences of commit / discard x an error or crash at every store-operation index and exports the SET of allowed observation "
+         "sequences; each scenario runs on the real transaction.Commit / Discard over fault-injecting wrappers around both stores (a sample "
+         "through `wrgl transaction commit|discard` with crashes at the store-write hooks) and heads, reflogs, transaction row, staged refs "
+         "and commit objects are tested for membership; seeded multi-transaction histories are validated by TLC (TraceTxn.tla).",
+         "failure points are store-operation boundaries (sqlite / badger trusted below their API, see C13)",
+         "TLA+ spec Txn.tla (TLC, all interleavings and failure points); TLC-enumerated fault scenarios replayed into pkg/transaction and the CLI; TLC trace validation (TraceTxn.tla)",
+         "DESIGN.md 5/C14"),
+ "C17": ("hostile", "exploration",
+         "Wire.tla's decoders are TOTAL (Ok or Err for any byte string); WireMut.tla derives from that grammar structured mutations of every "
+         "valid encoding (truncation at every segment boundary +-1 and mid-segment, every count / length field set to 0, +1, 0xFFFF, 2^24, "
+         "0xFFFFFFFF, labels altered, bits flipped, trailing garbage, packfile types 0..7 and lengths to 2^64-1), ALL byte strings of length "
+         "<= 6 (quick) / <= 9 (thorough) over a 4-letter alphabet for the leaf decoders, and packfiles of well-formed objects that are wrong "
+         "as a whole, each with the specification's verdict ok / either / err; every input is fed to every real entry point of its kind "
+         "(Read*From, Validate*Bytes, Get* over a store, list decoders, ReadPktLine, PackfileReader, ObjectReceiver.Receive) in worker "
+         "processes under RLIMIT_AS: each call must return (with an error where the specification says err), never panic, never exceed "
+         "10 s, never allocate more than 64 MiB + 64 x len(input), and a refused packfile object must leave the store as it was.",
+         "bounded grammar-derived exploration, not coverage-guided fuzzing; the ceilings are measured by the harness, not derived from the specification",
+         "TLA+ spec Wire.tla (total decoders) + WireMut.tla: TLC-enumerated hostile inputs with the specification's verdict replayed into every real decoder entry point and the object receiver",
+         "DESIGN.md 5/C17"),
+ "C18": ("stream", "model_checking",
+         "Stream.tla is the io.Reader contract as a state machine (Read returns any n in 1..min(req, remaining); EOF with the last bytes or "
+         "later) under a decoder reading the format's fields; TLC explores EVERY delivery schedule of the stream plans and checks "
+         "ChunkingTheorem (decoded fields and end-of-stream condition equal the whole-buffer delivery), and the same model with a single-Read "
+         "decoder MUST violate it (self-test); StreamGen enumerates per stream (packfile, pkt-lines, commit, table, block, block index, uint "
+         "list, string list, profile) every subset of K=6..10 (quick) / 8..16 (thorough: 478,144 schedules) interesting cut points x both EOF "
+         "placements, all-1-byte and 1-then-rest; each schedule is delivered by a scripted io.Reader into the REAL decoders and the result "
+         "compared with the whole-buffer decode; the scripted reader's own call logs are validated by TLC (TraceStream.tla).",
+         "readers honour the io.Reader contract (n >= 1 unless EOF; no transport errors); streams are valid encodings built from Wire.tla (bound by C06)",
+         "TLA+ spec Stream.tla (TLC, all delivery schedules); TLC-enumerated schedules replayed into pkg/encoding, pkg/objects decoders; TLC trace validation (TraceStream.tla)",
+         "DESIGN.md 5/C18"),
 }
 
 NOT_YET = {
